@@ -76,10 +76,19 @@ Qed.
 
 Definition has_init (hs : list (Z * undo)) : Prop := exists hh od, In (hh, UInit 0 od) hs.
 
+(* every initialisation record restores LIH = 0; a record of the other branches
+   restores a non-zero LIH only if an initialisation record lies below it *)
+Fixpoint hist_ok (hs : list (Z * undo)) : Prop :=
+  match hs with
+  | [] => True
+  | (_, UInit ol _) :: r => ol = 0 /\ hist_ok r
+  | (_, UKeep ol _) :: r => (ol <> 0 -> has_init r) /\ hist_ok r
+  end.
+
 Record irr_ok (p : params) (H : Z) (i : irr) : Prop := mkIrrOk {
   io_desc : desc (hist i) H;
   io_low : forall hh u, In (hh, u) (hist i) -> p_revert_start p <= hh;
-  io_zero : forall hh ol od, In (hh, UInit ol od) (hist i) -> ol = 0;
+  io_hist : hist_ok (hist i);
   io_init : lih i <> 0 -> has_init (hist i)
 }.
 
@@ -104,35 +113,33 @@ Proof.
   - apply Z.eqb_eq in E2. split; simpl hist.
     + apply Dn.
     + apply Ln.
-    + intros hh ol od [E|Hin]; [inversion E; subst; auto|eauto].
+    + simpl. auto.
     + intros _. exists (H + 1), (dstart i). rewrite E2. simpl. auto.
   - apply Z.eqb_neq in E2.
-    assert (Zn : forall od0 hh ol od, In (hh, UInit ol od) ((H + 1, UKeep od0) :: hist i) -> ol = 0).
-    { intros od0 hh ol od [E|Hin]; [inversion E|eauto]. }
-    assert (In_ : has_init ((H + 1, UKeep (dstart i)) :: hist i)).
+    assert (Zn : hist_ok ((H + 1, UKeep (lih i) (dstart i)) :: hist i)).
+    { simpl. auto. }
+    assert (In_ : has_init ((H + 1, UKeep (lih i) (dstart i)) :: hist i)).
     { destruct (I E2) as (hh & od & Hin). exists hh, od. simpl. auto. }
     destruct dpos; [|split; auto].
     destruct (IRR <=? u32 (H + 1 - dstart i)).
-    + split; simpl hist; [apply Dn|apply Ln|apply Zn|intros _; exact In_].
+    + split; simpl hist; [apply Dn|apply Ln|exact Zn|intros _; exact In_].
     + destruct resume; [|split; auto].
-      split; simpl hist; [apply Dn|apply Ln|apply Zn|intros _; exact In_].
+      split; simpl hist; [apply Dn|apply Ln|exact Zn|intros _; exact In_].
 Qed.
 
 Lemma rollback_aux_ok p h : forall hs B l d,
   desc hs B ->
   (forall hh u, In (hh, u) hs -> p_revert_start p <= hh) ->
-  (forall hh ol od, In (hh, UInit ol od) hs -> ol = 0) ->
+  hist_ok hs ->
   (l <> 0 -> has_init hs) ->
   irr_ok p h (irr_rollback_aux h l d hs).
 Proof.
   induction hs as [|[hh u] r IH]; simpl; intros B l d D L Zr I.
   - split; simpl; auto; try (intros; tauto).
   - destruct D as [D1 D2]. destruct (h <? hh) eqn:E.
-    + destruct u as [ol od|od].
+    + destruct u as [ol od|ol od]; destruct Zr as [Z1 Z2].
+      * apply (IH (hh - 1)); eauto. intros Hl. congruence.
       * apply (IH (hh - 1)); eauto.
-        intros Hl. exfalso. apply Hl. eapply Zr. left. reflexivity.
-      * apply (IH (hh - 1)); eauto.
-        intros Hl. destruct (I Hl) as (h1 & od1 & [E1|Hin]); [inversion E1|]. exists h1, od1. exact Hin.
     + apply Z.ltb_ge in E. split; simpl; auto.
 Qed.
 
@@ -369,4 +376,27 @@ Proof.
   induction bits as [|[dpos resume] r IH]; simpl; intros h i Hrs Hh Hw Hok; auto.
   destruct (try_update_mono p h i dpos resume Hrs Hh) as [M1 M2]; auto; try lia.
   split; auto. apply IH; auto; lia.
+Qed.
+
+(* rolling back the block just processed restores the DPoS irreversibility
+   state exactly (repair ac1a41f0) *)
+Lemma rollback_aux_stop h l d hs : desc hs h -> irr_rollback_aux h l d hs = mkIrr l d hs.
+Proof.
+  destruct hs as [|[hh u] r]; simpl; auto.
+  intros [D _]. destruct (h <? hh) eqn:E; auto. apply Z.ltb_lt in E. lia.
+Qed.
+
+Lemma rollback_restores p H i dpos resume :
+  desc (hist i) H -> irr_rollback H (try_update p (H + 1) dpos resume i) = i.
+Proof.
+  intros D. destruct i as [l d hs]. unfold try_update, irr_rollback. simpl in *.
+  assert (P : forall u l' d', irr_rollback_aux H l' d' ((H + 1, u) :: hs) =
+                              match u with UInit ol od => mkIrr ol od hs | UKeep ol od => mkIrr ol od hs end).
+  { intros u l' d'. simpl. assert (H <? H + 1 = true) as -> by (apply Z.ltb_lt; lia).
+    destruct u; apply rollback_aux_stop; exact D. }
+  destruct (H + 1 <? p_revert_start p); [apply rollback_aux_stop; exact D|].
+  destruct (l =? 0); [cbn [lih dstart hist]; rewrite P; reflexivity|].
+  destruct dpos; [|apply rollback_aux_stop; exact D].
+  destruct (IRR <=? u32 (H + 1 - d)); [cbn [lih dstart hist]; rewrite P; reflexivity|].
+  destruct resume; [cbn [lih dstart hist]; rewrite P; reflexivity|apply rollback_aux_stop; exact D].
 Qed.
